@@ -2004,6 +2004,9 @@ def family(name, tier="quick", seed=0, extra=()):
     if name == "peephole":
         import probes_peephole
         return probes_peephole.fam_peephole(tier, seed, extra)
+    if name == "iter":
+        import probes_iter
+        return probes_iter.fam_iter(tier, seed, extra)
     if name == "capture":
         import probes_capture
         return probes_capture.fam_capture(tier, seed, extra)
